@@ -866,7 +866,7 @@ def c07(acc):
     # target types: the hand-written family + std shapes + 40 [120] types given as data (spread over MC_Schema's type space)
     _, psch = mc_schema(acc, 2 if q else 3, "MC_Schema-c07")
     sch = ["--schemas", psch, "--max-schemas", 40 if q else 120]
-    de_replay(acc, p, "soup", "B:token soups x all target types x from_str/from_reader", extra=["--mutate", 0, "--stride", 1 if q else 4] + sch)
+    de_replay(acc, p, "soup", "B:token soups x all target types x from_str/from_reader", extra=["--mutate", 0, "--stride", 1 if q else 6] + sch)
     if not q:
         # every truncation of the shorter soups (the 5-token space with truncations does not finish in an hour)
         _, p4 = mc_de(acc, "soup", 4, ["F02"], "MC_De-soup4")
